@@ -103,7 +103,8 @@ def count_lines(arg):
 
 
 def inject_case(arg):
-    scn, k, sig, scope = arg
+    scn, k, sig, scope = arg[:4]
+    second = arg[4] if len(arg) > 4 else None
     out = {"sig": None, "nontrivial": False, "reach": {}, "violations": [], "inconclusive": [], "sets": {}}
     with common.Scratch("cv16") as sc:
         root = os.path.join(sc.root, "p")
@@ -115,7 +116,7 @@ def inject_case(arg):
         rows_before = sched.read_rows(root)
         inv = scn["inv"]
         spec = {"root": root, "argv": _argv(inv), "script": inv.get("script", {}), "strategy": inv["strategy"], "seed": inv["seed"], "outer_env": inv.get("outer_env"), "proc": inv.get("proc"),
-                "inject": {"signal": sig, "at_line": k, "scope": scope, "break_stdout": bool(scn.get("break_stdout")), "exits_after": scn.get("exits_after")}}
+                "inject": {"signal": sig, "at_line": k, "scope": scope, "break_stdout": bool(scn.get("break_stdout")), "exits_after": scn.get("exits_after"), "second": second}}
         kind, res = common.run_forked(schedsim.run_invocation, spec, 90)
         out["sig"] = "%s-%d-%s" % (scn["name"], k, sig)
         if kind != "ok":
@@ -135,10 +136,16 @@ def inject_case(arg):
         out["reach"]["c16_injections"] = 1
         out["reach"]["c16_injections_with_live_children"] = 1 if inj["live"] else 0
         out["reach"]["c16_children_alive_at_injection"] = len(inj["live"])
+        if second:
+            if not res["lines"].get("fired2"):
+                out["reach"]["c16_second_signal_not_reached"] = 1   # the command had already ended
+            else:
+                out["reach"]["c16_double_signal_injections"] = 1
+                out["sets"]["second_signal_sites"] = [res["lines"].get("site2")]
         out["sets"]["sites"] = [inj["site"]]
         out["sets"]["site_states"] = ["%s|live=%d|z=%d" % (inj["site"], len(inj["live"]), len(inj["zombies"]))]
-        out["sig"] = "%s|%s|live=%d|z=%d" % (scn["name"], inj["site"], len(inj["live"]), len(inj["zombies"]))
-        W = {"engine": "E2", "scenario": scn["name"], "tasks": scn["tasks"], "pre": scn["pre"], "inv": inv, "inject": spec["inject"], "site": inj["site"], "func": inj.get("func"),
+        out["sig"] = "%s|%s|live=%d|z=%d%s" % (scn["name"], inj["site"], len(inj["live"]), len(inj["zombies"]), "" if not second else "|second+%d@%s" % (second["after"], res["lines"].get("site2")))
+        W = {"engine": "E2", "scenario": scn["name"], "tasks": scn["tasks"], "pre": scn["pre"], "inv": inv, "inject": spec["inject"], "site": inj["site"], "second_signal_site": res["lines"].get("site2"), "func": inj.get("func"),
              "result": res["result"], "log": res["log"][-80:], "procs": [{k2: p[k2] for k2 in ("pid", "task", "state", "status", "signals")} for p in res["procs"]]}
         r = res["result"]
         stderr = schedsim.stdout_text(res["log"], "stderr")
@@ -185,7 +192,7 @@ def inject_case(arg):
 def main(tier, n=None):
     S.warm()
     rep = common.Report(PROP, tier, "fault_enumeration", RULE)
-    rep.assumptions = ["E2 interposed kernel (see C09)", "one signal per run; signals arriving before register_signal_handlers() are outside the claim",
+    rep.assumptions = ["E2 interposed kernel (see C09)", "one or two signals per run; signals arriving before register_signal_handlers() are outside the claim",
                        "signal.raise_signal from a sys.monitoring LINE callback makes the registered handler raise in the monitored frame, exactly like a real signal at that bytecode boundary"]
     scns = scenarios()
     scope = "conductor+subprocess" if tier == "thorough" else "conductor"
@@ -214,6 +221,24 @@ def main(tier, n=None):
             ks.update(take)
         for i, k in enumerate(sorted(ks)):
             cases.append((s, k, "INT" if i % 2 == 0 else "TERM", scope))
+    # a second SIGINT/SIGTERM while the first is being dealt with: first signal at executor / sigchld sites (tasks in
+    # flight), second signal at each of the following line events (the whole abort path up to process exit)
+    rng2 = common.rng_for("c16-double", common.base_seed())
+    double = []
+    for s, (kind, c) in zip(scns, counts):
+        if kind != "ok" or "error" in c or s.get("break_stdout"):
+            continue
+        occ = sorted(k0 for site, ks0 in c["sites"].items() if site.startswith(("execution/executor.py", "utils/sigchld.py")) for k0 in ks0)
+        if not occ:
+            continue
+        firsts = {occ[len(occ) // 2], occ[len(occ) * 3 // 4], occ[len(occ) // 3]} if tier == "quick" else set(rng2.sample(occ, min(len(occ), 40)))
+        for k0 in sorted(firsts):
+            for m in range(1, 61 if tier == "quick" else 120):
+                double.append((s, k0, rng2.choice(["INT", "TERM"]), scope, {"signal": rng2.choice(["INT", "TERM"]), "after": m}))
+    if tier == "quick":
+        rng2.shuffle(double)
+        double = double[:1500]
+    cases += double
     if n:
         rng = common.rng_for("c16", common.base_seed())
         rng.shuffle(cases)
@@ -240,7 +265,7 @@ def replay(path):
         v = json.load(f)
     w = v["witness"]
     scn = {"name": w["scenario"], "tasks": w["tasks"], "pre": w["pre"], "inv": w["inv"]}
-    out = inject_case((scn, w["inject"]["at_line"], w["inject"]["signal"], w["inject"].get("scope", "conductor")))
+    out = inject_case((scn, w["inject"]["at_line"], w["inject"]["signal"], w["inject"].get("scope", "conductor"), w["inject"].get("second")))
     for x in out["violations"]:
         print(x["msg"])
         print("VIOLATION property=%s replay=%s" % (PROP, path))
